@@ -76,8 +76,9 @@ Q q_last_dyn()
 Q q_subspan_dyn()
 {
     ELT* p = sym(); sz off = vf_nd_u64(), c = vf_nd_u64(); vf_assume(off <= LEN); vf_assume(c == DYN || c <= LEN - off); sz* n = cell();
-    if (c == DYN) vf_witness("count == dynamic_extent"); else vf_witness("explicit count");
-    ELT* d = k_subspan_dyn(p, off, c, n); SUBVIEW_IS(d, *n, off, c == DYN ? LEN - off : c, "subspan(offset,count)");
+    if (c == DYN) vf_witness("count == dynamic_extent");
+    ELT* d = k_subspan_dyn(p, off, c, n);
+    if (c != DYN) vf_witness("explicit count");   // (kept apart from the other witness so that the two calls are not merged into one) SUBVIEW_IS(d, *n, off, c == DYN ? LEN - off : c, "subspan(offset,count)");
     auto e = std::span<ELT>(p, LEN).subspan(off, c); vf_assert(d == e.data() && *n == e.size(), "subspan(offset,count) == std::span");
 }
 Q q_subspan_dyn1()
@@ -106,8 +107,9 @@ Q q_subspan_st()
 {
     // ci in 0..LEN-off: Count = ci; ci == LEN+1: Count defaulted (dynamic_extent)
     ELT* p = sym(); sz off = vf_nd_u64(), ci = vf_nd_u64(); vf_assume(off <= LEN); vf_assume(ci == LEN + 1 || ci <= LEN - off); sz* n = cell(); sz* x = cell();
-    if (ci == LEN + 1) vf_witness("Count defaulted"); else vf_witness("explicit Count");
-    ELT* d = k_subspan_st(p, off, ci, n, x); SUBVIEW_IS(d, *n, off, ci == LEN + 1 ? LEN - off : ci, "subspan<Offset,Count>()");
+    if (ci == LEN + 1) vf_witness("Count defaulted");
+    ELT* d = k_subspan_st(p, off, ci, n, x);
+    if (ci != LEN + 1) vf_witness("explicit Count"); SUBVIEW_IS(d, *n, off, ci == LEN + 1 ? LEN - off : ci, "subspan<Offset,Count>()");
     vf_assert(*x == (ci != LEN + 1 ? ci : STATIC_EXT ? LEN - off : DYN), "subspan<Offset,Count>() static extent as [span.sub]");
 }
 #if !STATIC_EXT || defined(C19_AS_BYTES_STATIC_FIXED)
